@@ -24,7 +24,7 @@ class C07(Prop):
     module = 'c07'
     title = 'The executor finishes each task exactly once'
     props_files = ['Props/C07.v']
-    extra_targets = ['Exec/Oracle.vo', 'Exec/CancelProofs.vo']
+    extra_targets = ['Exec/Oracle.vo', 'Exec/CancelProofs.vo', 'Exec/Enum.vo']
     model_targets = ['Exec/Oracle.vo']
     translators = []
     header = 'From RP Require Import Exec.Model Exec.Oracle.'
